@@ -35,7 +35,7 @@ prop('C01', engine='storesim', profiles={'quick': [('c01', 2400)], 'thorough': [
      rule='seeded histories over one data directory: several roots/contexts/namespace mountings/renderings, requests in any order, forcing, '
           'run failures, restarts with other hash seeds; every returned value compared with the provenance-bearing expected value; '
           'non-trivial = at least one value was computed and at least one was served from memory or storage; distinct = scenario digest')
-prop('C02', engine='storesim', profiles={'quick': [('c02', 2400)], 'thorough': [('c02', 60000)]}, level='exploration',
+prop('C02', engine='storesim', profiles={'quick': [('c02', 2400), ('c02zone', 160)], 'thorough': [('c02', 60000), ('c02zone', 2000)]}, level='exploration',
      nontrivial=lambda r: r['stats'].get('procs', 0) >= 2 and len(r['stats'].get('hs', [])) >= 2,
      rule='the same root built under composed computation-preserving rewritings (file/in-memory, JSON/YAML, renamed/moved files, outer namespace, '
           'permuted keys/tasks/uses, spelled defaults, other ignored values, config->context moves, other global_vars) in simulated processes with '
